@@ -116,6 +116,14 @@ def gen(rng, tier):
         for k in range(0, 16):
             cs.append(Case("poly1305_objverify %s %s %s" % (hx(key), hx(mac[:k]), body), cls="poly1305_objverify/short-prefix", expect=(lambda a: not a.startswith("ok")),
                            meta={"why": "a %d-byte prefix of the correct tag was accepted by the incremental verifier" % k, "panic_ok": True}))
+    # one very large piece (more than 1 MiB, not a multiple of it) among ordinary ones: SHA-512, HMAC-SHA-512-256, BLAKE2b, Poly1305
+    for n in (((1 << 20) + 5,) if tier == "quick" else ((1 << 20) + 5, (1 << 21) + 77, 3 * (1 << 20) - 1)):
+        msg = rbytes(rng, n)
+        key = rbytes(rng, 32)
+        for op, k in (("sha512_inc", None), ("auth_inc", key), ("poly1305_inc", key), ("generichash_inc", key)):
+            pre = ("32 " if op == "generichash_inc" else "") + (hx(k) + " " if k else "")
+            for pieces in ([msg], [msg[:7], msg[7:]], [msg[:100], msg[100:n - 3], msg[n - 3:]], [msg[:n // 2], msg[n // 2:]]):
+                cs.append(Case("%s %s%s" % (op, pre, " ".join(hx(p) for p in pieces)), cls="%s/large-piece" % op, meta={"no_spec": True}))
     # a key that is present but EMPTY (`Some(&[])`, an empty Vec): one answer from the one-shot and every incremental / object form
     for outlen in (16, 32, 32, 64):
         for n in (0, 1, 64, 128, 129, 200):
